@@ -42,7 +42,7 @@ theorem mem_eraseIdx_of_ne {α : Type} (l : List α) : ∀ (k : Nat) (p q : α),
 /-- SIMULATION: the C19 history state `r` is direction `v` of the abstract stack; `L` = the `Net` packets behind the
 in-flight packets of `r` (every sent, datagram-carrying, not yet dispatched packet is among them). -/
 structure Sim (B : Nat) (v : View) (L : List Packet) (r : Run) : Prop where
-  pm : r.peerMax = B
+  pm : r.peerMax = B + 9
   lm : r.rcv.localMax = B + 9
   sc : r.snd.closed = none
   rc : r.rcv.closed = none
@@ -58,7 +58,7 @@ structure Sim (B : Nat) (v : View) (L : List Packet) (r : Run) : Prop where
   /-- packet numbers of the sent packets increase -/
   sinc : (v.sent.map (·.pn)).Pairwise (· < ·)
 
-theorem sim_init (B : Nat) : Sim B ⟨[], [], [], []⟩ [] (Run.config B (B + 9)) := by
+theorem sim_init (B : Nat) : Sim B ⟨[], [], [], []⟩ [] (Run.config (B + 9) (B + 9)) := by
   constructor <;> simp [Run.config, dgsOf]
 
 theorem hasDg_false {p : Packet} (h : hasDg p = false) : dgOf p.frames = [] := by
@@ -72,7 +72,7 @@ theorem hasDg_true {p : Packet} (h : hasDg p = true) : dgOf p.frames ≠ [] := b
 theorem sim_dgSend {B : Nat} {v : View} {L : List Packet} {r : Run} (h : Sim B v L r)
     (x : Bytes) (hx : x.length < B) :
     Sim B { v with dgSent := v.dgSent ++ [x] } L (r.step (.send x)) := by
-  rw [step_send r x h.sc (by rw [h.pm]; exact hx)]
+  rw [step_send r x h.sc (by rw [h.pm]; omega)]
   refine { pm := h.pm, lm := h.lm, sc := h.sc, rc := h.rc, acc := ?_, arr := h.arr, wire := h.wire, deliv := h.deliv,
            queue := ?_, net := h.net, inflight := h.inflight, qsmall := ?_, lsmall := h.lsmall, sinc := h.sinc }
   · show r.accepted ++ [x] = v.dgSent ++ [x]
@@ -236,8 +236,8 @@ theorem net_sim {C : Type} (K : Crypto C) (ord : Order) (sw rw : Nat) (ops : Lis
     (hn : NoForgery K ord (Net.init C sw rw) ops) (hq : DgDiscipline K ord d (Net.init C sw rw) ops)
     (hB : B ≤ 2 ^ 62) (hs : DgSmall d B ops) :
     ∃ dops L, Datagram.SmallOps dops ∧
-      Sim B (view d (run K ord (Net.init C sw rw) ops)) L (Datagram.run B (B + 9) dops) :=
-  sim_run ord d hB ops (Net.init C sw rw) [] (Run.config B (B + 9)) (inv_init K sw rw) hn hq hs (sim_init B)
+      Sim B (view d (run K ord (Net.init C sw rw) ops)) L (Datagram.run (B + 9) (B + 9) dops) :=
+  sim_run ord d hB ops (Net.init C sw rw) [] (Run.config (B + 9) (B + 9)) (inv_init K sw rw) hn hq hs (sim_init B)
 
 /-- REFINEMENT: direction `d` of every history of the abstract stack whose honest sender respects the queue
 discipline is a history of the C19 datagram model (limits `B`, `B + 9`; no connection error on either flow). -/
@@ -246,7 +246,7 @@ theorem net_refines_c19' {C : Type} (K : Crypto C) (ord : Order) (sw rw : Nat) (
     (hB : B ≤ 2 ^ 62) (hs : DgSmall d B ops) :
     ∃ dops : List Datagram.Op, Datagram.SmallOps dops ∧
       let σ := run K ord (Net.init C sw rw) ops
-      let r := Datagram.run B (B + 9) dops
+      let r := Datagram.run (B + 9) (B + 9) dops
       r.snd.closed = none ∧ r.rcv.closed = none ∧
       r.accepted = σ.dgSent d ∧ r.arrived = σ.dgRcvd d ∧
       r.wire.flatMap Datagram.Pkt.payloads = dgsOf (σ.sent d) ∧
@@ -266,7 +266,7 @@ theorem net_datagrams_fifo' {C : Type} (K : Crypto C) (ord : Order) (sw rw : Nat
     dgsOf (σ.sent d) <+: σ.dgSent d ∧
     (∀ x ∈ σ.dgRcvd d, x ∈ dgsOf (σ.sent d) ∧ x ∈ σ.dgSent d) := by
   obtain ⟨dops, s, hsc, hrc, hacc, harr, hwire, hdel⟩ := net_refines_c19' K ord sw rw ops d B hn hq hB hs
-  have i := Datagram.Inv.run B (B + 9) dops s
+  have i := Datagram.Inv.run (B + 9) (B + 9) dops s
   have e1 := i.arr_all hrc
   have e2 := i.snd_prefix
   have e3 := i.net_perm
@@ -274,11 +274,11 @@ theorem net_datagrams_fifo' {C : Type} (K : Crypto C) (ord : Order) (sw rw : Nat
   rw [hwire, hacc] at e2
   refine ⟨e1, e2, ?_⟩
   intro x hx
-  have hx' : x ∈ (Datagram.run B (B + 9) dops).delivered.flatMap Datagram.Pkt.payloads := by
+  have hx' : x ∈ (Datagram.run (B + 9) (B + 9) dops).delivered.flatMap Datagram.Pkt.payloads := by
     rw [hdel, ← e1]; exact hx
   obtain ⟨pk, hpk, hxp⟩ := List.mem_flatMap.mp hx'
-  have hw : pk ∈ (Datagram.run B (B + 9) dops).wire := e3.subset (List.mem_append_left _ hpk)
-  have hxw : x ∈ (Datagram.run B (B + 9) dops).wire.flatMap Datagram.Pkt.payloads :=
+  have hw : pk ∈ (Datagram.run (B + 9) (B + 9) dops).wire := e3.subset (List.mem_append_left _ hpk)
+  have hxw : x ∈ (Datagram.run (B + 9) (B + 9) dops).wire.flatMap Datagram.Pkt.payloads :=
     List.mem_flatMap.mpr ⟨pk, hw, hxp⟩
   rw [hwire] at hxw
   exact ⟨hxw, e2.subset hxw⟩
